@@ -86,7 +86,6 @@ type ReplayRef struct {
 // knobbed is implemented by every scenario type.
 type knobbed interface{ knobs() SimKnobs }
 
-func (s *C03Scn) knobs() SimKnobs { return s.Knobs }
 
 // captureTB lets rapid report a failure without failing the Go test.
 type captureTB struct {
